@@ -93,9 +93,16 @@ def load(routes=False, **kw):
         if "smt" not in row or not row.get("anchored"):
             stats["untranslatable"] += 1
             continue
-        ok = consistent(asts[t], row)
+        ast = asts[t]
+        ok = consistent(ast, row)
+        if not ok:
+            # the generator's AST does not tokenise like wax (e.g. a flag it placed next to a tree
+            # wildcard): fall back to the reference-side parse of the printed text
+            alt = gen.parse(t)
+            if alt is not None and gen.show(alt) == t and consistent(alt, row):
+                ast, ok = alt, True
         stats["ast_ok"] += ok
-        recs.append({"text": t, "ast": asts[t], "row": row, "ast_ok": ok})
+        recs.append({"text": t, "ast": ast, "row": row, "ast_ok": ok})
     stats["distinct_patterns"] = len({r["row"]["re"] for r in recs})
     stats["nontrivial"] = len({r["row"]["re"] for r in recs
                                if r["ast"] is None or not gen.is_trivial(r["ast"])})
